@@ -1,40 +1,41 @@
-\* quick facet "own": registries only (creation and edits by owners and non-owners, sentinel, gzip), no requests
+\* thorough facet "deep": as "ibc" with one channel failure, the three outcome classes, two payers at the balance boundary
 CONSTANTS
-  Val = {v1}
+  Val = {v1, v2}
   Stranger = {}
-  MaxReq = 1
+  MaxReq = 2
   ExpSet = {2}
   PenaltySet = {2}
   DtSet = {1}
-  AskSet = {1}
+  AskSet = {1, 2}
   MinSet = {1}
   ShapeSet = {"exact"}
-  Chan = {"c0"}
+  Chan = {"c0", "c1"}
   Payer = {"p1"}
-  Acct = {"own", "a1"}
+  Acct = {}
   Treas = {"t1", "t2", "t3"}
-  MaxDs = 4
-  MaxOs = 6
-  BalSet = {7}
+  MaxDs = 3
+  MaxOs = 5
+  BalSet = {3, 7}
   LimitSet = {6}
   EncSet = {"none"}
   FormSet = {"good", "notjson"}
-  OsReqSet = {}
+  OsReqSet = {1, 2, 5}
   ClientSet = {"k1"}
-  TokSet = {"n1", "dnm"}
-  DsContSet = {"e2", "gz1", "dnm", "gzdnm", "big"}
-  OsCodeSet = {"w1", "wfail", "gzw1", "dnm", "gzdnm", "notwasm"}
-  FeeSet = {2}
-  DsEditSet = {3, 4}
-  OsEditSet = {6}
-  TreasTry = {"t1"}
-  HowSet = {}
+  TokSet = {}
+  DsContSet = {}
+  OsCodeSet = {}
+  FeeSet = {}
+  DsEditSet = {}
+  OsEditSet = {}
+  TreasTry = {}
+  HowSet = {"closed"}
   FlipSet = {}
   StepSet = {}
-  MaxH = 3
+  MaxH = 5
   MaxBreak = 1
 INIT IInitActive
 NEXT INext
+SYMMETRY Sym
 VIEW IView
 CONSTRAINT IBound
 INVARIANTS Inv IbcInv
